@@ -95,7 +95,7 @@ class World:
         self.oracles = set(oracles)
         self.timecode = bool(cfg.get("timecode", False))
         self.sim = Sim(timecode=self.timecode, send_msg_timing=bool(cfg.get("timing", True)),
-                       log_level=LOGLEVELS[cfg.get("log", "error")])
+                       log_level=LOGLEVELS[cfg.get("log", "error")], console=cfg.get("console", "null"))
         self.mods: List[MMod] = []
         self.hmods: List[HMod] = []
         self.trace: List[dict] = []
